@@ -26,6 +26,7 @@ import (
 	"path/filepath"
 	"reflect"
 	"syscall"
+	"time"
 	"unsafe"
 
 	filein "github.com/ozontech/file.d/plugin/input/file"
@@ -46,10 +47,35 @@ func c06ExecHist(which int, cs hx.Sx) hx.Sx {
 	it := hx.Items(cs)
 	max := int(hx.Int(it[0]))
 	cut := hx.Truth(it[1])
-	mode := int(hx.Int(it[2]))
+	// mode: 0 | 1 = the job of the export driver; 2 | (3 off ...) | 4 | 5 = a job made by the real addJob (realjob.go)
+	mode := 0
+	var offs []int64
+	if hx.IsList(it[2]) {
+		mi := hx.Items(it[2])
+		mode = int(hx.Int(mi[0]))
+		if mode != 3 {
+			return hx.L(hx.L(hx.S("harness/c06: unknown mode")))
+		}
+		if len(mi) > 1 {
+			offs = []int64{}
+		}
+		for _, o := range mi[1:] {
+			offs = append(offs, hx.Int(o))
+		}
+	} else {
+		mode = int(hx.Int(it[2]))
+	}
 	prefix := hx.Bytes(it[3])
 	ops := hx.Items(it[4])
 	path := filepath.Join(c06TempDir(), "h.log")
+	link := ""
+	switch mode {
+	case 5:
+		path = filepath.Join(c06TempDir(), "hfile") // no extension
+	case 6:
+		link = filepath.Join(c06TempDir(), "h.link")
+		defer os.Remove(link)
+	}
 	rotated := path + ".1"
 	os.Remove(rotated)
 	defer os.Remove(rotated)
@@ -73,12 +99,39 @@ func c06ExecHist(which int, cs hx.Sx) hx.Sx {
 		if err != nil {
 			panic(err)
 		}
+		if mode >= 2 {
+			defer c06ProviderOf(f.v).reset()
+			switch mode {
+			case 2, 6:
+				c06RealJob(f.v, path, link, c06OpReset, false, nil)
+			case 3:
+				c06RealJob(f.v, path, "", c06OpContinue, false, offs)
+			case 4:
+				c06RealJob(f.v, path, "", c06OpTail, false, nil)
+			case 5: // added after the start phase: offsets_op (tail) must be ignored
+				c06RealJob(f.v, path, "", c06OpTail, true, nil)
+			default:
+				panic("harness/c06: unknown mode")
+			}
+		}
 		g := c06GutsOf(f.v)
 		st, err := os.Stat(path)
 		if err != nil {
 			panic(err)
 		}
-		*(*uint64)(fieldPtr(reflect.ValueOf(g.job).Elem(), "inode")) = st.Sys().(*syscall.Stat_t).Ino // as addJob does
+		if mode < 2 {
+			*(*uint64)(fieldPtr(reflect.ValueOf(g.job).Elem(), "inode")) = st.Sys().(*syscall.Stat_t).Ino // as addJob does
+		}
+		for _, op := range ops {
+			if hx.Int(hx.Items(op)[0]) == 6 { // remove_after is on for the whole case; only the ticks of op 6 see it expired
+				pr := c06ProviderOf(f.v)
+				pr.cfg.RemoveAfter_ = time.Hour
+				if mode < 2 {
+					defer pr.reset()
+				}
+				break
+			}
+		}
 		jp := reflect.ValueOf(f.v).Elem().FieldByName("jp").UnsafePointer()
 		deleted := false
 		state := func() []hx.Sx {
@@ -126,6 +179,39 @@ func c06ExecHist(which int, cs hx.Sx) hx.Sx {
 					deleted = true
 				}
 				items = append(items, hx.L(append([]hx.Sx{hx.I(res)}, state()...)...))
+			case 5: // the real write notification (checkFileWasTruncated, tryResumeJobAndUnlock), then the pass
+				if deleted {
+					panic("harness/c06: notification for a deleted job")
+				}
+				if mode < 2 {
+					panic("harness/c06: op 5 needs a job made by the real addJob (mode >= 2)")
+				}
+				c06Notify(f.v, path, link)
+				f.v.Round(int(hx.Int(o[1])))
+				items = append(items, hx.L(state()...))
+			case 6: // maintenance tick with remove_after expired
+				if deleted {
+					panic("harness/c06: maintenance of a deleted job")
+				}
+				res := c06ExpiredTick(func() int { return c06MaintenanceJob(jp, g.job) })
+				if res == c06MaintResumed {
+					select {
+					case j := <-g.ch:
+						if j != g.job {
+							panic("harness/c06: another job in the channel")
+						}
+					default:
+						panic("harness/c06: maintenance reported resumed but queued nothing")
+					}
+					f.v.Round(int(hx.Int(o[1])))
+				} else if len(g.ch) != 0 {
+					panic("harness/c06: maintenance queued a job without reporting resumed")
+				}
+				if res == c06MaintDeleted {
+					deleted = true
+				}
+				_, lerr := os.Lstat(path)
+				items = append(items, hx.L(append(append([]hx.Sx{hx.I(res)}, state()...), hx.Bool(lerr != nil))...))
 			case 3:
 				if err := wf.Truncate(hx.Int(o[1])); err != nil {
 					panic(err)
